@@ -80,7 +80,13 @@ var genMultiCand = false
 func genMsgPattern(c *sim.Ctx, keys []string, ineq bool) interface{} {
 	if c.Chance(1, 12, "scalarpat") {
 		// a bare scalar pattern (a null pattern is "no pattern" and is generated as such)
-		return []interface{}{1.0, "x", true, "?v"}[c.Intn(4, "scalarpatval")]
+		// (a bare variable only against messages: against the bindings it would bind the
+		// bindings to themselves, which doubles their size on every turn of a cycle)
+		vals := []interface{}{1.0, "x", true, "?v"}
+		if len(keys) > 0 && keys[0] == bsKeys[0] {
+			vals = vals[:3]
+		}
+		return vals[c.Intn(len(vals), "scalarpatval")]
 	}
 	n := 1 + c.Intn(2, "patkeys")
 	p := map[string]interface{}{}
